@@ -674,6 +674,11 @@ func (w *World) equals(t types.Type, x, y Value) Value {
 		return x == y
 	case *ssa.Builtin:
 		return x == y
+	case *NativeFn:
+		if xv == nil {
+			return isNilFunc(y)
+		}
+		return x == y
 	case *Opaque:
 		yo, _ := y.(*Opaque)
 		return xv == yo
@@ -730,6 +735,8 @@ func isNilFunc(v Value) bool {
 	case *Closure:
 		return x == nil
 	case *ssa.Function:
+		return x == nil
+	case *NativeFn:
 		return x == nil
 	case Ptr:
 		return x == nil
